@@ -43,6 +43,17 @@ func TestLbvcScenarioPropagatedRequest(t *testing.T) {
 			s1.handlePropagatedRequest(&nats.Msg{Subject: "x", Data: data})
 		}()
 	}
+	// a body that is there but empty: a create-stream operation that names no stream
+	if data, err := proto.MarshalPropagatedRequest(&proto.PropagatedRequest{Op: proto.Op_CREATE_STREAM, CreateStreamOp: &proto.CreateStreamOp{}}); err == nil {
+		func() {
+			defer func() {
+				if r := recover(); r != nil {
+					problems = append(problems, fmt.Sprintf("a propagated CREATE_STREAM request whose body carries no stream (%d bytes on the wire) crashes the handler: %v", len(data), r))
+				}
+			}()
+			s1.handlePropagatedRequest(&nats.Msg{Subject: "x", Data: data})
+		}()
+	}
 	if len(problems) > 0 {
 		if len(problems) > 3 {
 			problems = append(problems[:3], fmt.Sprintf("... and %d more operations", len(problems)-3))
